@@ -173,6 +173,21 @@ theorem sortIdx_ordered (keys : List Val) :
       cases h : cmp a.1 b.1 <;> simp [h, Ordering.swap] at h1 h2 ⊢
   · simp at hab
 
+/-- the statement "a stable permutation of the rows ordered by the keys" determines the result:
+ANY permutation of the row numbers that is ordered by key with ties in original order is the
+one the model returns.  (So nothing is assumed about the sorting algorithm the code uses.) -/
+theorem sortIdx_unique (keys : List Val) (l : List Nat) (hp : l.Perm (List.range keys.length))
+    (hs : l.Pairwise (fun a b => ∃ ka kb, keys[a]? = some ka ∧ keys[b]? = some kb ∧
+      (cmp ka kb = .lt ∨ (cmp ka kb = .eq ∧ a < b)))) : l = sortIdx keys := by
+  refine List.Perm.eq_of_pairwise ?_ hs (sortIdx_ordered keys) (hp.trans (sortIdx_perm keys).symm)
+  rintro a b _ _ ⟨ka, kb, ha, hb, h1⟩ ⟨kb', ka', hb', ha', h2⟩
+  rw [hb] at hb'; rw [ha] at ha'
+  cases hb'; cases ha'
+  have hsw := cmp_antisymm kb ka
+  rcases h1 with h1 | ⟨h1, h1'⟩ <;> rcases h2 with h2 | ⟨h2, h2'⟩ <;>
+    simp [hsw, h1, Ordering.swap] at h2
+  omega
+
 /-- idempotence: sorting a table that is already in sorted order leaves every row in place -/
 theorem sortIdx_idem (keys : List Val) (h : keys.Pairwise (fun a b => cmpLe a b = true)) :
     sortIdx keys = List.range keys.length := by
